@@ -392,6 +392,12 @@ def r4_exit_status(ctx):
 
 
 # ---------------------------------------------------------------------------
+def _with(val, env):
+    out = val.__class__(val)
+    out.update({'@' + k: v for k, v in env.items()})
+    return out
+
+
 def _val_reach(g, starts, val, be, stop=(), strict=True):
     """nodes reachable along normal edges when the atoms have the values `val`: branches whose test evaluates to the other polarity are pruned.
     Boolean locals assigned from atom expressions (`is_selected = not example.is_disabled()`) are carried along the path.  In strict mode a test
@@ -413,7 +419,7 @@ def _val_reach(g, starts, val, be, stop=(), strict=True):
         if n.kind == 'stmt' and isinstance(n.ast, ast.Assign) and len(n.ast.targets) == 1 and isinstance(n.ast.targets[0], ast.Name):
             nm = n.ast.targets[0].id
             try:
-                env[nm] = be.eval(n.ast.value, dict(val, **{'@' + k: v for k, v in env.items()}))
+                env[nm] = be.eval(n.ast.value, _with(val, env))
             except AnalysisError:
                 env.pop(nm, None)
         nenvt = tuple(sorted(env.items()))
@@ -422,7 +428,7 @@ def _val_reach(g, starts, val, be, stop=(), strict=True):
                 continue
             if t.kind == 'branch' and t.attrs['test'].kind == 'test' and t.attrs['polarity'] in (True, False):
                 try:
-                    tr = be.eval(t.attrs['test'].ast, dict(val, **{'@' + k: v for k, v in env.items()}))
+                    tr = be.eval(t.attrs['test'].ast, _with(val, env))
                 except AnalysisError:
                     if strict:
                         raise
@@ -444,6 +450,11 @@ def _selection_atoms(names, ex, false_names=()):
                 return ('N', isinstance(e.ops[0], ast.In))
             if isinstance(c, ast.Name) and c.id in false_names:
                 return ('FALSE', isinstance(e.ops[0], ast.In))
+            if isinstance(c, (ast.Tuple, ast.List, ast.Set)) and all(isinstance(y, ast.Constant) and isinstance(y.value, str) for y in c.elts):
+                return ('CMDIN=' + '|'.join(y.value for y in c.elts), isinstance(e.ops[0], ast.In))
+        if isinstance(e, ast.Compare) and len(e.ops) == 1 and isinstance(e.ops[0], (ast.Eq, ast.NotEq)) and is_name(e.left, names.get('command')) \
+                and isinstance(e.comparators[0], ast.Constant) and isinstance(e.comparators[0].value, str):
+            return ('CMD=' + e.comparators[0].value, isinstance(e.ops[0], ast.Eq))
         if isinstance(e, ast.Call) and isinstance(e.func, ast.Attribute) and e.func.attr == 'is_disabled' and is_name(e.func.value, ex) and not e.args and not e.keywords:
             return ('D', True)
         if isinstance(e, ast.Name):
@@ -505,7 +516,8 @@ def _gathering_model(ctx, f, g):
         got = False
         for st in sites:
             be = _PathBool(_selection_atoms(names, st[3], false_names))
-            v = dict(val, FALSE=False)
+            v = val.__class__(val)
+            v['FALSE'] = False
             if st[0] == 'append':
                 _, a_, head, ex_ = st
                 if not any(x is head for x in _val_reach(hg, [hg.entry], v, be, strict=strict_all)):
@@ -578,17 +590,29 @@ def r5_gathering(ctx):
     a = where
     rows = []
     ok_all = True
+    class _Val(dict):
+        """valuation of the atoms; tests of the command against constants are evaluated for the concrete command of the row"""
+        def __missing__(self, key):
+            if key.startswith('CMD='):
+                return self['@cmd'] == key[4:]
+            if key.startswith('CMDIN='):
+                return self['@cmd'] in key[6:].split('|')
+            raise KeyError(key)
+
+        def __contains__(self, key):
+            return dict.__contains__(self, key) or key.startswith(('CMD=', 'CMDIN='))
     for G in (False, True):
         for N in (False, True):
             for D in (False, True):
-                val = {'G': G, 'N': N, 'D': D}
-                got = gathered(val)
                 spec = (G or N) and not (G and D)
-                rows.append({'all_or_dump': G, 'named': N, 'disabled': D, 'gathered': got})
-                if got != spec:
-                    ok_all = False
+                for cmd in (('all', 'dump') if G else ('some_callname',)):
+                    val = _Val({'G': G, 'N': N, 'D': D, '@cmd': cmd})
+                    got = gathered(val)
+                    rows.append({'command': cmd, 'all_or_dump': G, 'named': N, 'disabled': D, 'gathered': got})
+                    if got != spec:
+                        ok_all = False
     rep.ob('C10.R5', ctx.loc(f, a.ast), 'gathered <=> (all|dump or named) and not (all|dump and disabled)', ok_all,
-           'truth table over 8 valuations equals the specification' if ok_all else 'gathering differs from the specification: %s' % [r for r in rows if r['gathered'] != ((r['all_or_dump'] or r['named']) and not (r['all_or_dump'] and r['disabled']))],
+           'truth table over the 12 rows (command x named x disabled) equals the specification' if ok_all else 'gathering differs from the specification: %s' % [r for r in rows if r['gathered'] != ((r['all_or_dump'] or r['named']) and not (r['all_or_dump'] and r['disabled']))],
            anchor=DM)
     rep.note('gathering_truth_table', rows)
     # gather_all is true exactly for 'all' and 'dump'
@@ -921,6 +945,7 @@ RN = 'xdoctest/runner.py'
 MA = 'xdoctest/__main__.py'
 DE = 'xdoctest/doctest_example.py'
 VARIANTS = [
+    fire('dump-converts-disabled-doctests', 'C10.R5', (RN, "                if gather_all and example.is_disabled():\n", "                if command == 'all' and example.is_disabled():\n")),
     fire('two-disable-markers-fused', 'C10.R6', (DE, "            r'>>>\\s*#\\s*SCRIPT',\n", "            r'>>>\\s*#\\s*SCRIPT'\n")),
     fire('named-by-substring-of-callname', 'C10.R5', (RN, "            if gather_all or command in example.valid_testnames:\n", "            if gather_all or command in example.unique_callname:\n")),
     fire('list-only-when-verbose', 'C10.R8', (RN, "                                          for example in examples]))\n", "                                          for example in examples]), level=2)\n")),
